@@ -25,7 +25,7 @@ struct Rec {
 
 constexpr u32 H1 = 0x00C0;
 
-void build_firmware(Asm& a, bool irq_driven, bool reconf, bool sem_service, bool timer_irq) {
+void build_firmware(Asm& a, bool irq_driven, bool reconf, bool sem_service, bool timer_irq, bool vectored) {
     auto service = [&](bool save) {
         if (save) {
             a.w(op::PUSH_R0).w(op::PUSH_R1);
@@ -67,7 +67,7 @@ void build_firmware(Asm& a, bool irq_driven, bool reconf, bool sem_service, bool
     a.w(op::RETI);
     a.org(MAIN);
     a.mov_imm(op::SP, 0x0F00);
-    a.mov_imm_sttmod(op::MOD3, (u16)((irq_driven ? 0x0180 : 0x0000) | (timer_irq ? 0x0280 : 0)));
+    a.mov_imm_sttmod(op::MOD3, (u16)((irq_driven ? 0x0180 : 0x0000) | (timer_irq ? 0x0280 : 0) | (irq_driven && vectored ? 0x0800 : 0)));
     if (irq_driven) {
         a.idle();
     } else {
@@ -117,7 +117,7 @@ public:
         return {1, 0};
     }
     std::vector<std::pair<std::string, s64>> simplest_knobs() const override {
-        return {{"timer_irq", 0}, {"reenter", 0}, {"reconf", 0}, {"sem", 0}, {"pct", 0}, {"stall_len", 0}, {"hosts", 1}};
+        return {{"timer_irq", 0}, {"reenter", 0}, {"reconf", 0}, {"sem", 0}, {"pct", 0}, {"stall_len", 0}, {"hosts", 1}, {"vectored", 0}};
     }
 
     Plan generate(u64 seed, const Tier& tier) override {
@@ -128,6 +128,7 @@ public:
         p.set_knob("reconf", (s64)r.chance(1, 3));
         p.set_knob("sem", (s64)r.chance(1, 2));
         p.set_knob("timer_irq", (s64)r.chance(1, 2));
+        p.set_knob("vectored", (s64)r.chance(1, 3)); // the mailbox interrupt arrives on the vectored line (target address + context bit)
         p.set_knob("timer_period", (s64)r.range(3, 60));
         p.set_knob("timer_periodic", (s64)r.chance(1, 4));
         int hosts = tier.thorough && r.chance(1, 2) ? 2 : (r.chance(1, 4) ? 2 : 1);
@@ -288,15 +289,19 @@ public:
         Asm a;
         bool irq_driven = plan.knob("irq_driven", 0) != 0;
         const bool timer_irq = plan.knob("timer_irq", 0) != 0;
-        build_firmware(a, irq_driven, plan.knob("reconf", 0) != 0, plan.knob("sem", 0) != 0, timer_irq);
+        const bool vectored = irq_driven && plan.knob("vectored", 0) != 0;
+        build_firmware(a, irq_driven, plan.knob("reconf", 0) != 0, plan.knob("sem", 0) != 0, timer_irq, vectored);
         b.load(a.words);
         for (u16 o = 0x206; o <= 0x20C; o += 2)
             t.MMIOWrite(o, 0);
-        t.MMIOWrite(0x206, irq_driven ? 0x4000 : 0);
+        t.MMIOWrite(0x206, irq_driven && !vectored ? 0x4000 : 0);
+        t.MMIOWrite(0x20C, vectored ? 0x4000 : 0);
         for (u16 i = 0; i < 16; ++i) {
             t.MMIOWrite((u16)(0x212 + i * 4), 0);
-            t.MMIOWrite((u16)(0x214 + i * 4), 0);
+            t.MMIOWrite((u16)(0x214 + i * 4), (u16)(vectored ? H0 : 0));
         }
+        if (vectored)
+            out.probes["mailbox_on_vectored_line"]++;
         t.MMIOWrite(0x20, 0x0100);
         t.MMIOWrite(0x30, 0x0100);
         if (timer_irq) {
